@@ -74,3 +74,62 @@ package auth
 //@   requires [wf] c != nil
 //@   call fetchBearerToken requires [C16:credentials-read-for-request-host] args.registry == host
 //@   call fetchBearerToken requires [C16:realm-from-own-challenge] args.realm == realm && args.service == service
+//@
+//@ import syncutil "oras.land/oras-go/v2/internal/syncutil"
+//@ import sync "sync"
+//@
+//@ pure credFor(c Credential, reg string) bool
+//@ callback CredentialFn params ctx, hostport
+//@   ensures result1 == nil ==> credFor(result0, hostport)
+//@   modifies alloc
+//@ funcfield Client.Credential CredentialFn
+//@
+//@ func (*Client).credential
+//@   ensures [C16:credential-for-registry] result1 == nil ==> result0 == EmptyCredential || credFor(result0, reg)
+//@   modifies alloc
+//@
+//@ func (*Client).fetchDistributionToken
+//@   trusted
+//@   modifies alloc, ghost.consumedBody, ghost.trips, ghost.closedRC
+//@ func (*Client).fetchOAuth2Token
+//@   trusted
+//@   modifies alloc, ghost.consumedBody, ghost.trips, ghost.closedRC
+//@
+//@ func (*Client).fetchBearerToken
+//@   call credential requires [C16:credentials-read-for-request-host] args.reg == registry
+//@   call fetchDistributionToken requires [C16:secrets-go-to-the-challenge-realm] args.realm == realm && args.service == service && args.username == cred.Username && args.password == cred.Password
+//@   call fetchOAuth2Token requires [C16:secrets-go-to-the-challenge-realm] args.realm == realm && args.service == service && args.cred == cred
+//@
+//@ func (*Client).fetchBasicAuth
+//@   call credential requires [C16:credentials-read-for-request-host] args.reg == registry
+//@
+//@ func (*syncutil.Once).Do
+//@   trusted
+//@   ensures result2 == nil ==> typeIs(result1, string)
+//@   modifies alloc
+//@ func syncutil.NewOnce
+//@   trusted
+//@   ensures result != nil && !old(alive(result)) && alive(result)
+//@   modifies alloc
+//@
+//@ pure ccRI(cc *concurrentCache) bool = cc != nil
+//@      && (forall r any :: syncHas(lockOf(cc, "cache"), r) ==> typeIs(syncVal(lockOf(cc, "cache"), r), *cacheEntry) && as(syncVal(lockOf(cc, "cache"), r), *cacheEntry) != nil)
+//@      && (forall r any :: syncHas(lockOf(cc, "status"), r) ==> typeIs(syncVal(lockOf(cc, "status"), r), *syncutil.Once) && as(syncVal(lockOf(cc, "status"), r), *syncutil.Once) != nil)
+//@      && (forall e *cacheEntry, k any :: syncHas(lockOf(e, "tokens"), k) ==> typeIs(syncVal(lockOf(e, "tokens"), k), string))
+//@
+//@ func (*concurrentCache).GetToken
+//@   requires [ri] ccRI(cc)
+//@   let cm = lockOf(cc, "cache")
+//@   let e0 = as(syncVal(lockOf(cc, "cache"), box(registry)), *cacheEntry)
+//@   ensures [C16:hit-only-same-registry-scheme-key] result1 == nil ==> syncHas(cm, box(registry)) && e0.scheme == scheme && syncHas(lockOf(e0, "tokens"), box(key)) && box(result0) == syncVal(lockOf(e0, "tokens"), box(key))
+//@   modifies alloc, elems[any]
+//@
+//@ ghost local ccFirst bool
+//@ func (*concurrentCache).Set
+//@   requires [ri] ccRI(cc)
+//@   let cm = lockOf(cc, "cache")
+//@   let e1 = as(syncVal(lockOf(cc, "cache"), box(registry)), *cacheEntry)
+//@   call (*Once).Do set ccFirst = result0
+//@   ensures [C16:stored-under-same-triple] result1 == nil && ccFirst ==> syncHas(cm, box(registry)) && e1.scheme == scheme && syncHas(lockOf(e1, "tokens"), box(key)) && syncVal(lockOf(e1, "tokens"), box(key)) == box(result0)
+//@   ensures [C16:scheme-change-invalidates] result1 == nil && ccFirst && old(syncHas(lockOf(cc, "cache"), box(registry))) && old(as(syncVal(lockOf(cc, "cache"), box(registry)), *cacheEntry).scheme) != scheme ==> (forall k any :: k != box(key) ==> !syncHas(lockOf(e1, "tokens"), k))
+//@   ensures [C16:ri] ccRI(cc)
